@@ -125,6 +125,7 @@ func graphQ2() *Graph {
 
 var c01Graphs = map[string]func() *Graph{
 	"tt3": func() *Graph { return TruthTableGraph(3, true) },
+	"tt4": func() *Graph { return TruthTableGraph(4, true) },
 	"q1":  graphQ1,
 	"q2":  graphQ2,
 }
@@ -185,6 +186,41 @@ func c01Gen(tier string, emit func(c01Case)) {
 		}
 	}
 	packEmit("prop", "tt3", all)
+
+	// ---- family 1w: wide connectives — and/or of width 4 (thorough: also 5) whose operands are atoms and
+	// two-member conjunctions / disjunctions over 4 atoms (operand multisets; the translator sorts operands)
+	{
+		var opsAnd, opsOr, opsAll []*F
+		for a := 1; a <= 4; a++ {
+			opsAnd, opsOr, opsAll = append(opsAnd, FAtom(a)), append(opsOr, FAtom(a)), append(opsAll, FAtom(a))
+		}
+		for a := 1; a <= 4; a++ {
+			for b := a + 1; b <= 4; b++ {
+				opsAnd = append(opsAnd, FAnd(FAtom(a), FAtom(b)))
+				opsOr = append(opsOr, FOr(FAtom(a), FAtom(b)))
+				opsAll = append(opsAll, FAnd(FAtom(a), FAtom(b)), FOr(FAtom(a), FNot(FAtom(b))))
+			}
+		}
+		var wide []*F
+		var rec func(ops []*F, w, start int, cur []*F)
+		rec = func(ops []*F, w, start int, cur []*F) {
+			if len(cur) == w {
+				k := append([]*F{}, cur...)
+				wide = append(wide, FOr(k...), FAnd(k...), FNot(FOr(k...)))
+				return
+			}
+			for i := start; i < len(ops); i++ {
+				rec(ops, w, i, append(cur, ops[i]))
+			}
+		}
+		rec(opsAnd, 4, 0, nil)
+		rec(opsOr, 4, 0, nil)
+		if tier == "thorough" {
+			rec(opsAll, 4, 0, nil)
+			rec(opsAnd, 5, 0, nil)
+		}
+		packEmit("wide", "tt4", wide)
+	}
 
 	// ---- family 2: quantifiers in contexts
 	maxK := 2
